@@ -135,7 +135,7 @@ class Source:
         """addr: 'Type::name' | 'Trait for Type::name' | '::name' (free fn)
         | 'trait Name::method' (default method in a trait definition).
         Returns (start_off, end_off_exclusive, first_line, impl_header)."""
-        m = re.match(r'^(?:(\w+) for )?(\w*)::(\w+)$', addr)
+        m = re.match(r'^(?:(\w+)@)?(\w*)::(\w+)$', addr)
         if not m:
             raise ExtractError('bad fn address %r' % addr)
         want_tr, want_ty, name = m.group(1), m.group(2), m.group(3)
@@ -198,12 +198,25 @@ class Source:
         if not m:
             raise ExtractError('lost anchor: %s %s in %s' % (kind, name, self.rel))
         start = m.start()
-        ob = self.stripped.find('{', m.end())
-        semi = self.stripped.find(';', m.end())
-        if 0 <= semi and (ob < 0 or semi < ob):
-            end = semi + 1
-        else:
-            end = match_close(self.stripped, ob) + 1
+        # end: first ';' at bracket depth 0, or the close of the first '{' at depth 0
+        depth = 0
+        j = m.end()
+        end = None
+        while j < len(self.stripped):
+            ch = self.stripped[j]
+            if ch in '([':
+                depth += 1
+            elif ch in ')]':
+                depth -= 1
+            elif ch == ';' and depth == 0:
+                end = j + 1
+                break
+            elif ch == '{' and depth == 0:
+                end = match_close(self.stripped, j) + 1
+                break
+            j += 1
+        if end is None:
+            raise ExtractError('lost anchor: end of %s %s in %s' % (kind, name, self.rel))
         return start, end, self.line_of(start)
 
 
